@@ -430,8 +430,6 @@ stack::uptr
 op_merge::next (scon &sc) const
 {
   state &st = sc.get <state> (m_ll);
-  if (st.m_done)
-    return nullptr;
 
   while (! st.m_done)
     {
@@ -442,6 +440,11 @@ op_merge::next (scon &sc) const
 	st.m_idx = 0;
     }
 
+  // Upstream is drained.  When this ALT sits in a sub-expression, the
+  // enclosing op may feed a new stack to the origin and pull again, so
+  // get ready for another round instead of staying exhausted forever.
+  st.m_done = false;
+  st.m_idx = 0;
   return nullptr;
 }
 
